@@ -316,6 +316,20 @@ func (e *ParserData) CounterPop() IntType {
 	return num
 }
 
+// lineBreakBefore 报告 offset 之前紧邻的那段空白里是否有换行
+func lineBreakBefore(data []byte, offset int) bool {
+	for i := offset - 1; i >= 0; i-- {
+		switch data[i] {
+		case '\n':
+			return true
+		case ' ', '\t', '\r':
+		default:
+			return false
+		}
+	}
+	return false
+}
+
 // parseFlagsKey 影响语法的全部开关(语法里的 &{...} 谓词所读的那些)，用作解析结果缓存的有效条件
 func (e *ParserData) parseFlagsKey() uint8 {
 	var k uint8
